@@ -2,8 +2,8 @@ SPECIFICATION Spec
 CONSTANTS
   QMode = "keyed"
   ProgSel = 6
-  MaxLen = 2
-  MaxSteps = 2
+  MaxLen = 1
+  MaxSteps = 3
   MaxTime = 24
 CONSTRAINT Bound
 INVARIANT InvStackRestored
